@@ -1,6 +1,7 @@
 SPECIFICATION Spec
-CONSTANTS ThreadsC = {0, 1}  NLpC = 3  OwnerOf <- M2_Owner  InitEv <- M2_Init  Trans <- M2_Trans  MaxMsg = 12  CkptEvery = 3  MaxGvt = 0
+CONSTANTS ThreadsC = {0, 1}  NLpC = 3  OwnerOf <- M2_Owner  InitEv <- M2_Init  Trans <- M2_Trans  MaxMsg = 16  CkptEvery = 3  MaxGvt = 0
 INVARIANT NoCheckFails
+INVARIANT PoolSufficient
 INVARIANT C01_FinalEqualsSequential
 INVARIANT C06_NothingLeft
 CHECK_DEADLOCK FALSE
